@@ -1052,6 +1052,7 @@ class TokenizerCore:
             elif token_type == TokenType.BIT_STRING:
                 base = 2
             elif token_type == TokenType.HEREDOC_STRING:
+                line, col = self._line, self._col
                 self._advance()
 
                 if self._char == end:
@@ -1072,6 +1073,8 @@ class TokenizerCore:
                         self._advance(-1)
 
                     self._advance(-len(tag))
+                    # The tag lookahead may have crossed line breaks
+                    self._line, self._col = line, col
                     self._add(self.heredoc_string_alternative)
                     return True
 
